@@ -2,7 +2,7 @@
 from . import streams_matrix
 
 ID = 'C16'
-PROPS_MODULE = ['Refine.Props.C16']
+PROPS_MODULE = ['Refine.Props.C16', 'Refine.Props.C16QL']
 STREAMS = [streams_matrix.MAIN, streams_matrix.PAIR, streams_matrix.STRICT, streams_matrix.UNDERFLOW]
 
 EXPLANATION = (
@@ -31,14 +31,34 @@ EXPLANATION = (
     '(streams matrix_main, matrix_pair, matrix_strict, matrix_underflow); the oracles check on the implementation\'s own '
     'output, against an independent 50-digit Jacobi solver and exact rational residuals, orthonormality, reconstruction, '
     'log/exp, sqrt, inverse identities and the Loewner order of intersect/bound with c*eps*cond-scaled tolerances. '
-    'Only oracled: that the decomposition is accurate (diagM_similarity is not proved: the QL similarity invariant), and '
-    'convergence within 30 sweeps. Known findings reported by the strict/underflow streams: the absolute 1e-14 convergence '
+    '(6) diagM_similarity (Props/C16QL.lean): every inner step of the QL loop is a Givens similarity of the full 3x3 matrix '
+    'with the bulge stored explicitly (ql_rotation_is_givens, ql_rotation_similarity), tql2\'s closing recurrence '
+    'p = -s*s2*c3*el1*e[l]/dl1 equals the p left by the loop because the shift makes the leading 2x2 block singular '
+    '(ql_closing_recurrence), so each of the three possible sweeps (blocks 0..1, 1..2 and the two-rotation sweep over 0..2) '
+    'keeps Q (T + f P) Q^T (ql_sweep_similarity), and so do the do-while loop for any number of sweeps and the row loop '
+    '(ql_loop_similarity, ql_row_similarity). Whenever diag_m returns success: m = Q diag(d) Q^T + resid entry by entry, '
+    'resid being the at most three sub-diagonal entries that passed the convergence test although they were not 0, each '
+    'bounded by the tolerance of the test (1e-14*tst1) and placed between the two vectors it coupled when it was dropped '
+    '(diagM_similarity); the quadratic forms of m and of Q diag(d) Q^T differ by at most 3*tol*|x|^2 for every x '
+    '(diagM_residual_bound); if the dropped entries - which are what is left in e[0], e[1] at return, plus possibly the e[1] of the first rotation (diagM_dropped_entries) - were exactly 0 the decomposition is exact (diagM_similarity_exact, diagM_similarity_efinal), which '
+    'is proved outright for every input whose tridiagonal form has e[1] = 0 and an e[0] that does not pass the test '
+    '(diagM_exact_block2: the one-rotation sweep annihilates e[0] exactly); eigenvalues all above 3*tol imply that the input '
+    'is positive definite, with no exactness hypothesis (diagM_spd_of_margin); log/exp/sqrt identities restated with the '
+    'hypothesis "the inner runs dropped nothing non-zero" instead of an abstract IsEigSys (exp_log_zeroResidual, '
+    'log_exp_zeroResidual, sqrt_zeroResidual, zeroResidual_isEigSys, innerExact_of_zeroResidual for intersect/bound); descending_eig keeps form_m for every system '
+    '(descendingEig_formM); form_m of an orthonormal system with positive values is positive definite (formM_spd). '
+    'Only oracled: convergence within 30 sweeps, and the size of tst1 relative to the norm of the input (the residual bound is '
+    'stated in terms of the test\'s own tst1). Known findings reported by the strict/underflow streams: the absolute 1e-14 convergence '
     'test and the unscaled sqrt(m1^2+m2^2) of the first rotation.')
 
 ASSUMPTIONS = [
     'IEEE rounding in every REF_DBL kernel is modelled (Float instance, bit-compared), not verified: the theorems hold in exact arithmetic',
-    'diagM_similarity (each implicit-shift QL step keeps Q T Q^T = A) is not proved; theorems about log/exp/sqrt/intersect/bound take '
-    'IsEigSys (orthonormal and formM d = m) of the inner decompositions as hypotheses; the residual oracles check them numerically',
+    'diagM_similarity is proved in exact arithmetic with an explicit residual: the convergence test is a threshold, so the entries it '
+    'drops (each <= 1e-14*tst1) remain as m - Q diag(d) Q^T; theorems about log/exp/sqrt/intersect/bound are exact statements and '
+    'therefore still take exactness of the inner decompositions as a hypothesis (IsEigSys, or ZeroResidual = the run dropped nothing '
+    'non-zero); a perturbation bound for log/exp/sqrt/intersect under a non-zero residual is not proved; the residual oracles check '
+    'them numerically',
+    'the residual bound is in terms of tst1 (max over rows of |d[l]|+|e[l]| of the shifted matrix at row entry), not of a norm of m',
     'convergence of the QL iteration within the 30-sweep cap is not proved (a non-ok status on a finite matrix is an oracle failure)',
     'main-stream tolerances are c*eps_eff*cond-scaled with eps_eff = eps + 1e-14/|M| (the implementation\'s absolute convergence '
     'threshold); the strict stream uses eps_eff = eps and reports the difference as a known finding',
